@@ -21,7 +21,7 @@ ID = 'C16'
 LEVEL = 'exploration'
 RULE = ('Three Hypothesis-generated op-list machines. (i) SingletonPoolSink from its Builder over harness connections (open '
         'delay 0-10 ms): Open / Close by holders / request (also several while the first open is pending) / complete / fail '
-        '(connection) / advance; at most one live connection, requests between two failures share it, the first request after a '
+        '(connection) / advance, also several holders' Opens and Closes within one turn of the event loop; at the end the remaining holders close and no connection may be left open; at most one live connection, requests between two failures share it, the first request after a '
         'failure gets a fresh one and exactly one is created. (ii) RefCountedSink over a mock sink: Open / Close by several '
         'holders incl. surplus closes and re-open after the last close; underlying Open exactly on 0->1, Close exactly on 1->0, '
         'all holders get the same pending open result. (iii) SharedSinkProvider with a key selector: CreateSink for keys from a '
@@ -55,6 +55,7 @@ def strategy(tier):
           (2, st.tuples(st.just('interrupt'), st.sampled_from(['timeout', 'kill'])).map(list)),
           # the connection reports Busy (open and healthy, momentarily occupied) or plain Open again
           (2, st.tuples(st.just('busy'), st.booleans()).map(list)),
+          (2, st.tuples(st.just('seq'), st.lists(st.sampled_from(['open', 'open', 'close']), min_size=2, max_size=4)).map(list)),
           (2, st.tuples(st.just('advance'), st.sampled_from([1, 4, 12])).map(list))), 0, 50),
   })
   ref = st.fixed_dictionaries({
@@ -203,13 +204,15 @@ def _exec_singleton(plan):
     if len(prov.conns) > 1 + failures[0]:
       raise Violation(ID, 'extra-connections', '%d connections created after %d failures / full closes %s' % (len(prov.conns), failures[0], where))
 
-  pool_open = False
-  for step, op in enumerate(plan['ops']):
+  st_open = [False]
+
+  def do(op):
     k = op[0]
+    pool_open = st_open[0]
     if k == 'open':
       pool.Open()
       holders[0] += 1
-      pool_open = True
+      pool_open = st_open[0] = True
     elif k == 'close':
       if holders[0] > 0:
         holders[0] -= 1
@@ -220,10 +223,11 @@ def _exec_singleton(plan):
         else:
           pool.Close()
         if holders[0] == 0:
-          pool_open = False
+          pool_open = st_open[0] = False
           for r in reqs:
             if r.conn is None and not r.completions:
               r.raced_close = True      # nothing is promised to a request that races the last Close
+              r.pending_at_last_close = True
           # closing the last holder closes the connection; a later Open/request starts afresh
           failures[0] += 1
     elif k == 'request':
@@ -268,14 +272,38 @@ def _exec_singleton(plan):
         r.greenlet.kill(gevent.Timeout(0.001) if op[1] == 'timeout' else gevent.GreenletExit(), block=False)
     elif k == 'advance':
       advance(op[1] / 1000.0)
+    elif k == 'seq':
+      # several holders act within one turn of the event loop
+      flags.add('opens_and_closes_in_one_turn')
+      for sub in op[1]:
+        do([sub])
+
+  for step, op in enumerate(plan['ops']):
+    do(op)
     settle()
     check(step, op)
   advance(0.03)
   check(len(plan['ops']), ['final'])
-  if pool_open:
+  if st_open[0]:
     stuck = [r.id for r in reqs if r.conn is None and not r.completions and not getattr(r, 'raced_close', False)]
     if stuck:
       raise Violation(ID, 'request-stuck', 'requests %r never reached a connection although the pool is open' % stuck)
+  # the remaining holders close (nothing in flight, one after the other): the connection goes with the last of them
+  for r in reqs:
+    if r.conn is not None and not r.completions:
+      r.stack.AsyncProcessResponseMessage(MethodReturnMessage('ok'))
+  settle()
+  while holders[0] > 0:
+    holders[0] -= 1
+    pool.Close()
+    settle()
+  advance(0.03)
+  if not any(getattr(r, 'pending_at_last_close', False) for r in reqs):
+    left = [c for c in prov.conns if not c.failed and c.close_calls == 0]
+    if left:
+      raise Violation(ID, 'connection-outlives-holders', 'every holder of the singleton pool has closed it, but %r %s never closed' % (
+          left, 'was' if len(left) == 1 else 'were'))
+    flags.add('all_holders_closed')
   if 'failure' in flags and len([r for r in reqs if r.conn is not None]) >= 2:
     flags.add('failure_between_requests')
   nt = sorted(f for f in flags if f in ('concurrent_first_requests', 'failure_between_requests', 'request_while_open_pending'))
